@@ -312,7 +312,7 @@ func init() {
 		ID:   "C11",
 		Desc: "chunked I/O: client ReadAt/WriteAt of any size behave as one remote operation",
 		Run:  runC11,
-		Quick: 40000, Thorough: 600000, QuickSecs: 60, ThorSecs: 1200,
+		Quick: 40000, Thorough: 6000000, QuickSecs: 60, ThorSecs: 1200,
 		Rule:  "msize in {154,155,665,666,667,1024,4096,8192,64 KiB,1 MiB} (1/3 of runs: the server offers less than requested) x buffer length in {0,1,P-1,P,P+1,2P-1,2P,2P+1,3P+7,5P} for the payload size P x offset in {0, mid, EOF-1, EOF, EOF+1, 2^32-1, 2^32+1, 2^62} x file size {0,1,100,5000,70000} x read/write x (half of the runs) one chunk 0..5 answered short, empty or with Rlerror. Oracle: byte-slice model of the remote file (WriteAt stores exactly p[:n], n = len(p) when all is accepted; ReadAt returns the model's bytes, io.EOF iff fewer than len(p) were delivered because the file ended, always when 0 of a non-empty p, never with n = len(p)); wire: chunk offsets contiguous and increasing, every Tread small enough that its Rread fits the announced msize and every Twrite frame within it (wire monitor), nothing sent after the first short or failed chunk, returned count = bytes acknowledged. Input/configuration property: search over sizes and fault positions.",
 		Real:   []string{"p9 client files (chunk, readAt, writeAt)", "p9.Client", "p9 wire codec"},
 		Stub:   []string{"transport (simnet pipes)", "fake 9P server with a byte-slice file (refcodec)"},
